@@ -79,6 +79,7 @@ def spec : Handler := fun j => do
     ("wf_unquote", Json.bool (wfUnquote t1)), ("wf_kinds", Json.bool (wfKinds t1)),
     ("wf_posonly", Json.bool (wfPosonly [] t1)), ("wf_alias", Json.bool (wfAlias [] t1)),
     ("wf_stages4", Json.bool (wfStages4 t1)), ("wf_stages6", Json.bool (wfStages6 t1)),
+    ("wf_tweak", Json.bool (wfTweak t1)),
     ("repr_is_dumpNoCtx", Json.bool (reprsAreDumps t)),
     ("stage6_eq_tweak", Json.bool (dumpP id [] [] (stage6 t1) == dumpP id [] [] (tweak [] t1)))])
 
